@@ -1,9 +1,13 @@
 package props
 
 import (
+	"crypto/sha256"
 	"encoding/binary"
+	"encoding/hex"
 	"fmt"
+	c4eapp "github.com/chain4energy/c4e-chain/app"
 	"sort"
+	"strings"
 	"testing"
 	"time"
 
@@ -75,7 +79,7 @@ func subspaceWithTable(ss paramstypes.Subspace, tbl paramstypes.KeyTable) params
 func TestC16(t *testing.T) {
 	st := StatsFor("C16")
 	rapid.Check(t, func(t *rapid.T) {
-		runC16(t, st, NewVestWorld(nil), false)
+		runC16(t, st, NewVestWorld(nil), false, false)
 	})
 }
 
@@ -89,11 +93,11 @@ func TestC16Handler(t *testing.T) {
 	rapid.Check(t, func(t *rapid.T) {
 		w, ctx := caseNoICA()
 		v := &VestWorld{W: w, App: w.App, Ctx: ctx.WithBlockTime(nsTime(T0.UnixNano() + secNs)), NowNs: T0.UnixNano() + secNs, fresh: 1000}
-		runC16(t, st, v, true)
+		runC16(t, st, v, true, false)
 	})
 }
 
-func runC16(t *rapid.T, st *Stats, v *VestWorld, viaHandler bool) {
+func runC16(t *rapid.T, st *Stats, v *VestWorld, viaHandler bool, determinismOnly bool) {
 	{
 		app, ctx := v.App, v.Ctx
 		cdc := app.AppCodec()
@@ -126,6 +130,12 @@ func runC16(t *rapid.T, st *Stats, v *VestWorld, viaHandler bool) {
 		owners := []string{KeyAcc(1).Addr.String(), KeyAcc(2).Addr.String()}[:rapid.IntRange(0, 2).Draw(t, "otherOwners")]
 		if ownerPresent {
 			owners = append(owners, c16Owner)
+		}
+		if len(owners) > 0 && rapid.IntRange(0, 3).Draw(t, "upperCaseOwnerRecord") == 0 {
+			// the old store may hold a record under the upper case spelling of an address (a genesis file can
+			// spell an owner that way), next to the canonical record of the same account
+			owners = append(owners, strings.ToUpper(owners[rapid.IntRange(0, len(owners)-1).Draw(t, "upperOf")]))
+			classes["owner_record_under_upper_case_spelling"] = true
 		}
 		pre := map[string][]c16Pool{}
 		total := sdk.ZeroInt()
@@ -302,41 +312,70 @@ func runC16(t *rapid.T, st *Stats, v *VestWorld, viaHandler bool) {
 		minterParamsPre := ctx.KVStore(app.GetKey(mintertypes.StoreKey)).Get(mintertypes.ParamsKey)
 
 		// ---------- run the upgrade's sequence through its public entry points
-		var errM, errD error
-		if viaHandler {
-			vm := app.UpgradeKeeper.GetModuleVersionMap(ctx)
-			vm[vestingtypes.ModuleName], vm[mintertypes.ModuleName], vm[distrtypes.ModuleName] = 2, 2, 2
-			delete(vm, "interchainaccounts")
-			// SetModuleVersionMap only adds/overwrites entries: remove the stale one by hand
-			upStore := ctx.KVStore(app.GetKey("upgrade"))
-			upStore.Delete(append([]byte{0x2}, []byte("interchainaccounts")...))
-			app.UpgradeKeeper.SetModuleVersionMap(ctx, vm)
-			var pan interface{}
-			func() {
-				defer func() { pan = notRapid(recover()) }()
-				app.UpgradeKeeper.ApplyUpgrade(ctx, upgradetypes.Plan{Name: v120.UpgradeName, Height: ctx.BlockHeight()})
-			}()
-			if pan != nil {
-				t.Fatalf("the v1.2.0 upgrade handler failed on a valid pre-upgrade state: %v", pan)
+		runUpgrade := func(uctx sdk.Context) (errM, errD error) {
+			if viaHandler {
+				vm := app.UpgradeKeeper.GetModuleVersionMap(uctx)
+				vm[vestingtypes.ModuleName], vm[mintertypes.ModuleName], vm[distrtypes.ModuleName] = 2, 2, 2
+				delete(vm, "interchainaccounts")
+				// SetModuleVersionMap only adds/overwrites entries: remove the stale one by hand
+				upStore := uctx.KVStore(app.GetKey("upgrade"))
+				upStore.Delete(append([]byte{0x2}, []byte("interchainaccounts")...))
+				app.UpgradeKeeper.SetModuleVersionMap(uctx, vm)
+				var pan interface{}
+				func() {
+					defer func() { pan = notRapid(recover()) }()
+					app.UpgradeKeeper.ApplyUpgrade(uctx, upgradetypes.Plan{Name: v120.UpgradeName, Height: uctx.BlockHeight()})
+				}()
+				if pan != nil {
+					t.Fatalf("the v1.2.0 upgrade handler failed on a valid pre-upgrade state: %v", pan)
+				}
+				after := app.UpgradeKeeper.GetModuleVersionMap(uctx)
+				if after[vestingtypes.ModuleName] != 3 || after[mintertypes.ModuleName] != 3 || after[distrtypes.ModuleName] != 3 {
+					t.Fatalf("module versions after the upgrade: %v", after)
+				}
+			} else {
+				if err := vestingkeeper.NewMigrator(app.CfevestingKeeper, ssV).Migrate2to3(uctx); err != nil {
+					t.Fatalf("vesting store migration failed on a valid pre-upgrade store: %v", err)
+				}
+				errM = minterkeeper.NewMigrator(app.CfeminterKeeper, ssM).Migrate2to3(uctx)
+				errD = distrkeeper.NewMigrator(app.CfedistributorKeeper, ssD).Migrate2to3(uctx)
+				v120.UpdateVestingAccountTraces(uctx, app)
+				if err := v120.ModifyVestingPoolsState(uctx, app); err != nil {
+					t.Fatalf("ModifyVestingPoolsState failed: %v", err)
+				}
+				if err := v120.ModifyVestingAccountsState(uctx, app); err != nil {
+					t.Fatalf("ModifyVestingAccountsState failed: %v", err)
+				}
 			}
-			after := app.UpgradeKeeper.GetModuleVersionMap(ctx)
-			if after[vestingtypes.ModuleName] != 3 || after[mintertypes.ModuleName] != 3 || after[distrtypes.ModuleName] != 3 {
-				t.Fatalf("module versions after the upgrade: %v", after)
-			}
-		} else {
-			if err := vestingkeeper.NewMigrator(app.CfevestingKeeper, ssV).Migrate2to3(ctx); err != nil {
-				t.Fatalf("vesting store migration failed on a valid pre-upgrade store: %v", err)
-			}
-			errM = minterkeeper.NewMigrator(app.CfeminterKeeper, ssM).Migrate2to3(ctx)
-			errD = distrkeeper.NewMigrator(app.CfedistributorKeeper, ssD).Migrate2to3(ctx)
-			v120.UpdateVestingAccountTraces(ctx, app)
-			if err := v120.ModifyVestingPoolsState(ctx, app); err != nil {
-				t.Fatalf("ModifyVestingPoolsState failed: %v", err)
-			}
-			if err := v120.ModifyVestingAccountsState(ctx, app); err != nil {
-				t.Fatalf("ModifyVestingAccountsState failed: %v", err)
-			}
+			return errM, errD
 		}
+		if determinismOnly {
+			// C11: two executions of the upgrade block on identical state (two replicas) must leave
+			// identical stores
+			ca, _ := ctx.CacheContext()
+			cb, _ := ctx.CacheContext()
+			runUpgrade(ca)
+			runUpgrade(cb)
+			names := []string{vestingtypes.StoreKey, mintertypes.StoreKey, distrtypes.StoreKey, "bank", "acc", "params", "upgrade"}
+			for _, n := range names {
+				if da, db := storeDigest(app, ca, n), storeDigest(app, cb, n); da != db {
+					t.Fatalf("two executions of the v1.2.0 upgrade (handler=%v) on identical state left different %s stores: %s vs %s\npools A: %v\npools B: %v", viaHandler, n, da, db,
+						app.CfevestingKeeper.GetAllAccountVestingPools(ca), app.CfevestingKeeper.GetAllAccountVestingPools(cb))
+				}
+			}
+			nt := len(owners) >= 2 // several owner records went through the store migration
+			if avp, ok := app.CfevestingKeeper.GetAccountVestingPools(ca, c16Owner); ok && len(avp.VestingPools) > len(pre[c16Owner]) {
+				nt = true // the split created the new pools on both replicas
+				classes["split_applied"] = true
+			}
+			if viaHandler {
+				classes["through_upgrade_handler"] = true
+			}
+			classes["upgrade_block_on_two_replicas"] = true
+			st.Case(nt, map[string]interface{}{"owners": owners, "pre": fmt.Sprint(pre)}, classList(classes)...)
+			return
+		}
+		errM, errD := runUpgrade(ctx)
 
 		// ---------- expected post-state
 		expect := map[string][]c16Pool{}
@@ -534,3 +573,21 @@ func runC16(t *rapid.T, st *Stats, v *VestWorld, viaHandler bool) {
 type tFatal struct{ t *rapid.T }
 
 func (f tFatal) Fatalf(format string, a ...interface{}) { f.t.Fatalf(format, a...) }
+
+// storeDigest hashes every key/value of one store of the app as seen by ctx.
+func storeDigest(app *c4eapp.App, ctx sdk.Context, name string) string {
+	key := app.GetKey(name)
+	if key == nil {
+		return "no such store"
+	}
+	h := sha256.New()
+	it := ctx.KVStore(key).Iterator(nil, nil)
+	defer it.Close()
+	for ; it.Valid(); it.Next() {
+		h.Write([]byte{0})
+		h.Write(it.Key())
+		h.Write([]byte{1})
+		h.Write(it.Value())
+	}
+	return hex.EncodeToString(h.Sum(nil))
+}
